@@ -70,6 +70,8 @@ var (
 
 	// templates memory cache
 	mCache ipfix.MemCache
+	// set (atomically) once run has loaded mCache
+	mCacheLoaded int32
 
 	// ipfix udp payload pool
 	ipfixBuffer = &sync.Pool{
@@ -117,6 +119,7 @@ func (i *IPFIX) run() {
 	logger.Printf("ipfix is running (UDP: listening on [::]:%d workers#: %d)", i.port, i.workers)
 
 	mCache = ipfix.GetCache(opts.IPFIXTplCacheFile)
+	atomic.StoreInt32(&mCacheLoaded, 1)
 	go ipfix.RPC(mCache, &ipfix.RPCConfig{
 		Enabled: opts.IPFIXRPCEnabled,
 		Logger:  logger,
@@ -177,9 +180,12 @@ func (i *IPFIX) shutdown() {
 	logger.Println("stopping ipfix service gracefully ...")
 	time.Sleep(1 * time.Second)
 
-	// dump the templates to storage
-	if err := mCache.Dump(opts.IPFIXTplCacheFile); err != nil {
-		logger.Println("couldn't not dump template", err)
+	// dump the templates to storage, unless run has not loaded them yet
+	// (a nil cache would overwrite the saved templates with an empty file)
+	if atomic.LoadInt32(&mCacheLoaded) == 1 {
+		if err := mCache.Dump(opts.IPFIXTplCacheFile); err != nil {
+			logger.Println("couldn't not dump template", err)
+		}
 	}
 
 	// logging (the UDP channel is closed by the read loop)
